@@ -152,6 +152,23 @@ def run(ctx, res):
         res.evaluations += 1
         if not all(family.same(outs[0], o) for o in outs[1:]):
             res.violations.append({'key': None, 'sig': 'modes', 'what': 'function-valued maps: partitioning modes disagree %s' % [(o[0], len(o[1]) if o[0] == 'ok' else o[1]) for o in outs], 'replay': c})
+    # a user-defined function is the one defined in the configured file: the same mapping under two UDF files that define the same
+    # function identifiers differently, run one after the other in ONE process, must give each file's own results
+    import copy as _copy
+    differing = ('/dup', '/nullif', '/pair')      # the functions the two files define differently
+    udf_cases = [c for c in cases if c['cfg'].get('udfs') and any(str(e.get('fun', '')).endswith(differing) for e in c.get('execs', []))][:ctx.scale(6, 60)]
+    for c in udf_cases:
+        a = _copy.deepcopy(c); a['cfg']['udf_source'] = 'udfs.py'
+        b = _copy.deepcopy(c); b['cfg']['udf_source'] = 'udfs_alt.py'
+        alone = [family.run_sequence(ctx, [a])[0], family.run_sequence(ctx, [b])[0]]     # each in a fresh process of its own
+        seq = family.run_sequence(ctx, [a, b, a])
+        res.evaluations += 1
+        res.count('udf-file-sequence')
+        for i, (got, exp) in enumerate(zip(seq, [alone[0], alone[1], alone[0]])):
+            if not family.same(got, exp):
+                res.violations.append({'key': None, 'sig': 'udf-file', 'what': 'call %d of the sequence [udfs.py, udfs_alt.py, udfs.py] in one process differs from the same call alone: %s vs %s'
+                                       % (i + 1, str(got)[:160], str(exp)[:160]), 'replay': {'case': c}})
+                break
     # documented contracts of the built-ins on inputs the Gallina registry does not follow (Unicode case mappings ...):
     # reference definitions written here, independent of the code
     words = ['Straße', 'ǅ', 'İstanbul', 'ﬁn', 'ΟΔΥΣΣΕΥΣ', 'ὈΔΥΣΣΕΎΣ', 'µ', 'ß', 'ı', 'Ǆ', 'abc', 'ÀÉ', ' x\u2003', '\x1cq\x85', 'a,b', '', 'ΣΑΣ', 'i̇']
